@@ -11,17 +11,24 @@
 //!   * direct          — untemplated: fixed text == raw of the final tree; placeholder templating:
 //!                       placeholders of the fixed source == placeholders of the source (same, in
 //!                       order) and re-rendering the fixed source gives the raw of the final tree;
-//!   * hypothesis monitors for the premises of the theorems.
+//!   * group `span`    — the real `raw_slices_spanning_source_slice` (conflict side) vs the Gallina `spanning`;
+//!   * monitors        — premises of the theorems; the conflict filter asked about synthetic fixes at
+//!                       every segment x edit type (`synth_conflicts`, blocking) and about the fixes the
+//!                       loop really applied (`touches_templated`, diagnostic).
+//! Templated generators: `templatise` (corpus literals -> placeholders; `wide`: glued / partial
+//! identifiers, multi-token and padded values, file ending in a placeholder) and `gen_shape`
+//! (synthetic statements around placeholders in chosen syntactic roles).
 use std::cell::RefCell;
 use std::rc::Rc;
 
 use serde_json::{Value, json};
-use sqruff_lib::core::config::FluffConfig;
+use sqruff_lib::core::config::{FluffConfig, Value as CfgValue};
 use sqruff_lib::core::linter::core::{Linter, verif_hook};
 use sqruff_lib::core::linter::linted_file::LintedFile;
 use sqruff_lib_core::parser::segments::base::{ErasedSegment, Tables};
 use sqruff_lib_core::parser::segments::fix::FixPatch;
 use sqruff_lib_core::dialects::syntax::SyntaxKind;
+use sqruff_lib_core::lint_fix::LintFix;
 use sqruff_lib_core::templaters::base::{RawFileSlice, TemplatedFile, TemplatedFileSlice};
 
 use crate::common::*;
@@ -41,7 +48,11 @@ pub const RULESETS: &[&str] = &[
 #[derive(Clone)]
 pub struct Templ {
     pub style: String,
+    /// custom `param_regex` (then `style` is only a label)
+    pub regex: Option<String>,
     pub params: Vec<(String, String)>,
+    /// set every value through the configuration object (`FluffConfig::raw`) instead of the ini text
+    pub api: bool,
 }
 
 pub struct Item {
@@ -52,29 +63,74 @@ pub struct Item {
     pub templ: Option<Templ>,
 }
 
+/// Can the value be written as `key = value` in the ini text (the reader trims, cuts at comment
+/// signs and has no multi-line values)? Whatever the answer, `mk_config` reads every value back.
+fn ini_ok(k: &str, v: &str) -> bool {
+    !v.is_empty() && v.trim() == v && !v.contains(['\n', '#', ';', '%']) && !k.is_empty() && !k.contains([':', '=', ' ', '}', '{', '#', ';'])
+}
+
 pub fn cfg_text(dialect: &str, rules: &str, templ: Option<&Templ>) -> String {
     let mut s = format!("[sqruff]\ndialect = {}\nrules = {}\n", dialect, rules);
     if let Some(t) = templ {
         s.push_str("templater = placeholder\n\n[sqruff:templater:placeholder]\n");
-        s.push_str(&format!("param_style = {}\n", t.style));
+        match &t.regex {
+            Some(r) => s.push_str(&format!("param_regex = {}\n", r)),
+            None => s.push_str(&format!("param_style = {}\n", t.style)),
+        }
         for (k, v) in &t.params {
-            s.push_str(&format!("{} = {}\n", k, v));
+            if !t.api && ini_ok(k, v) {
+                s.push_str(&format!("{} = {}\n", k, v));
+            }
         }
     }
     s
 }
+fn value_text(v: &CfgValue) -> Option<String> {
+    match (v.as_string(), v.as_int(), v.as_bool()) {
+        (Some(s), None, None) => Some(s.to_string()),
+        (None, Some(i), None) => Some(i.to_string()),
+        (None, None, Some(b)) => Some(if b { "true" } else { "false" }.to_string()),
+        _ => None,
+    }
+}
+/// The configuration: ini text for everything the ini reader can carry; every parameter value is
+/// read back and, where the reader did not deliver exactly the intended text (multi-line, empty,
+/// padded values, keys holding ':' ...), set through the configuration object.
+pub fn mk_config(dialect: &str, rules: &str, templ: Option<&Templ>) -> FluffConfig {
+    let mut cfg = FluffConfig::from_source(&cfg_text(dialect, rules, templ), None);
+    if let Some(t) = templ {
+        if let Some(m) = cfg.raw.get_mut("templater").and_then(|x| x.as_map_mut()).and_then(|x| x.get_mut("placeholder")).and_then(|x| x.as_map_mut()) {
+            if let Some(r) = &t.regex {
+                if m.get("param_regex").and_then(|v| v.as_string()) != Some(r.as_str()) {
+                    m.insert("param_regex".into(), CfgValue::String(r.as_str().into()));
+                }
+            }
+            for (k, v) in &t.params {
+                if k == "param_style" || k == "param_regex" {
+                    continue;
+                }
+                if m.get(k.as_str()).and_then(value_text).as_deref() != Some(v.as_str()) {
+                    m.insert(k.clone(), CfgValue::String(v.as_str().into()));
+                }
+            }
+        }
+    }
+    cfg
+}
 pub fn mk_linter(dialect: &str, rules: &str, templ: Option<&Templ>) -> Linter {
-    Linter::new(FluffConfig::from_source(&cfg_text(dialect, rules, templ), None), None, None, true)
+    Linter::new(mk_config(dialect, rules, templ), None, None, true)
 }
 pub fn item_json(it: &Item) -> Value {
     json!({"kind":"file","cls":it.cls,"dialect":it.dialect,"rules":it.rules,"sql":it.sql,
-        "templ": it.templ.as_ref().map(|t| json!({"style":t.style,"params":t.params}))})
+        "templ": it.templ.as_ref().map(|t| json!({"style":t.style,"regex":t.regex,"params":t.params,"api":t.api}))})
 }
 pub fn item_from_json(v: &Value) -> Item {
     let templ = if v["templ"].is_object() {
         Some(Templ {
             style: v["templ"]["style"].as_str().unwrap().to_string(),
+            regex: v["templ"]["regex"].as_str().map(|x| x.to_string()),
             params: v["templ"]["params"].as_array().unwrap().iter().map(|p| (p[0].as_str().unwrap().to_string(), p[1].as_str().unwrap().to_string())).collect(),
+            api: v["templ"]["api"].as_bool().unwrap_or(false),
         })
     } else {
         None
@@ -159,22 +215,92 @@ pub fn perturb(rng: &mut Rng, text: &str) -> String {
 }
 
 const STYLES: &[&str] = &["colon", "colon_nospaces", "numeric_colon", "pyformat", "dollar", "question_mark", "numeric_dollar", "percent", "ampersand", "flyway_var"];
+/// every built-in style, plus two custom `param_regex` configurations (named / positional)
+const STYLES_ALL: &[&str] = &[
+    "colon", "colon_nospaces", "numeric_colon", "pyformat", "dollar", "question_mark", "numeric_dollar", "percent", "ampersand", "flyway_var",
+    "apache_camel", "custom_named", "custom_positional",
+    // drawn more often: the styles whose regex also matches inside a word
+    "colon", "colon_nospaces", "ampersand", "dollar", "question_mark",
+];
+fn custom_regex(style: &str) -> Option<String> {
+    match style {
+        "custom_named" => Some(r"__(?P<param_name>[a-z0-9]+)__".to_string()),
+        "custom_positional" => Some("@@".to_string()),
+        _ => None,
+    }
+}
+fn positional(style: &str) -> bool {
+    matches!(style, "question_mark" | "percent" | "custom_positional")
+}
+fn numeric(style: &str) -> bool {
+    style.starts_with("numeric")
+}
+/// Text of a placeholder of `style` for parameter `name` and the configuration key of its value.
+fn mk_ph(rng: &mut Rng, style: &str, name: &str) -> Option<(String, String)> {
+    let ph = match style {
+        "colon" | "colon_nospaces" | "numeric_colon" => format!(":{}", name),
+        "pyformat" => format!("%({})s", name),
+        "dollar" | "numeric_dollar" => {
+            if rng.chance(1, 2) { format!("${}", name) } else { format!("${{{}}}", name) }
+        }
+        "question_mark" => "?".to_string(),
+        "percent" => "%s".to_string(),
+        "ampersand" => {
+            if rng.chance(1, 2) { format!("&{}", name) } else { format!("&{{{}}}", name) }
+        }
+        "flyway_var" => format!("${{v:{}}}", name),
+        "apache_camel" => format!(":#${{{}}}", name),
+        "custom_named" => format!("__{}__", name),
+        "custom_positional" => "@@".to_string(),
+        _ => return None,
+    };
+    let key = if style == "flyway_var" { format!("v:{}", name) } else { name.to_string() };
+    Some((ph, key))
+}
+/// Does a placeholder of this style still match directly after an identifier character?
+fn glues_after_word(style: &str) -> bool {
+    matches!(style, "colon_nospaces" | "ampersand" | "flyway_var" | "apache_camel" | "custom_positional")
+}
 
-/// Replace some literals (integers, simple quoted strings) of `text` by placeholders of `style`,
-/// each placeholder standing as its own token; the parameter value is the literal's text, so the
-/// replacement is shorter, equal or longer than the placeholder depending on the drawn name.
-pub fn templatise(rng: &mut Rng, text: &str, style: &str) -> Option<(String, Templ)> {
+/// Replace some literals (integers, simple quoted strings) of `text` by placeholders of `style`;
+/// the parameter value is the literal's text, so the replacement is shorter, equal or longer than
+/// the placeholder depending on the drawn name.
+///
+/// `wide = false`: every placeholder stands as its own token between separators (the original
+/// generator). `wide = true` additionally: literals next to any operator, identifiers holding `_`
+/// replaced as a whole or only in part (placeholder glued to the rest of the identifier), values that
+/// lex into several tokens / carry padding or a line break around the literal, and (one file in
+/// three) the file cut back so that it *ends* in a placeholder with nothing behind it.
+pub fn templatise(rng: &mut Rng, text: &str, style: &str, wide: bool) -> Option<(String, Templ)> {
     if !text.is_ascii() {
         return None;
+    }
+    let mut text = text.to_string();
+    let end_in_ph = wide && rng.chance(1, 3);
+    if end_in_ph {
+        let t = text.trim_end_matches(|c: char| c.is_ascii_whitespace() || c == ';');
+        text = t.to_string();
     }
     let b = text.as_bytes();
     let mut out = String::new();
     let mut params: Vec<(String, String)> = vec![];
     let mut i = 0;
     let mut n = 0usize;
-    let positional = matches!(style, "question_mark" | "percent");
+    let positional = positional(style);
     // positional styles number every match, also those already in the file
     let mut in_comment = false;
+    // start of the last token if the file ends in an identifier / number (for `end_in_ph`)
+    let last_tok = {
+        let mut j = b.len();
+        while j > 0 && is_ident(b[j - 1]) {
+            j -= 1;
+        }
+        if end_in_ph && j < b.len() && (j == 0 || matches!(b[j - 1], b' ' | b'\n' | b'(' | b',' | b'=' | b'<' | b'>' | b'.')) { Some(j) } else { None }
+    };
+    let sep_before = |c: u8| matches!(c, b' ' | b'\n' | b'(' | b',' | b'=' | b'<' | b'>');
+    let sep_after = |c: u8| matches!(c, b' ' | b'\n' | b')' | b',' | b';');
+    let wide_before = |c: u8| !is_ident(c) && !matches!(c, b'.' | b'\'' | b'"' | b'`' | b'$' | b'@' | b':' | b'&' | b'%' | b'#' | b'\\' | b'{' | b'[');
+    let wide_after = |c: u8| !is_ident(c) && !matches!(c, b'.' | b'\'' | b'"' | b'`' | b'(' | b'[');
     while i < b.len() {
         let c = b[i];
         if c == b'-' && i + 1 < b.len() && b[i + 1] == b'-' {
@@ -188,23 +314,25 @@ pub fn templatise(rng: &mut Rng, text: &str, style: &str) -> Option<(String, Tem
             i += 1;
             continue;
         }
-        let prev_ok = i == 0 || matches!(b[i - 1], b' ' | b'\n' | b'(' | b',' | b'=' | b'<' | b'>');
-        let mut lit: Option<usize> = None;
+        let prev_ok = i == 0 || sep_before(b[i - 1]) || (wide && wide_before(b[i - 1]));
+        let next_ok = |j: usize| j == b.len() || sep_after(b[j]) || (wide && wide_after(b[j]));
+        // (end of the replaced text, is an identifier)
+        let mut lit: Option<(usize, bool)> = None;
         if prev_ok && c.is_ascii_digit() {
             let mut j = i;
             while j < b.len() && b[j].is_ascii_digit() {
                 j += 1;
             }
-            if (j == b.len() || matches!(b[j], b' ' | b'\n' | b')' | b',' | b';')) && j - i <= 9 && (b[i] != b'0' || j - i == 1) {
-                lit = Some(j);
+            if next_ok(j) && j - i <= 9 && (b[i] != b'0' || j - i == 1) {
+                lit = Some((j, false));
             }
         } else if prev_ok && c == b'\'' {
             let mut j = i + 1;
             while j < b.len() && (is_ident(b[j])) {
                 j += 1;
             }
-            if j < b.len() && b[j] == b'\'' && j > i + 1 && (j + 1 == b.len() || matches!(b[j + 1], b' ' | b'\n' | b')' | b',' | b';')) {
-                lit = Some(j + 1);
+            if j < b.len() && b[j] == b'\'' && j > i + 1 && next_ok(j + 1) {
+                lit = Some((j + 1, false));
             }
         } else if c == b'\'' {
             // skip other quoted strings untouched
@@ -216,12 +344,51 @@ pub fn templatise(rng: &mut Rng, text: &str, style: &str) -> Option<(String, Tem
             out.push_str(&text[i..j]);
             i = j;
             continue;
+        } else if wide && (c.is_ascii_alphabetic() || c == b'_') && (i == 0 || !is_ident(b[i - 1])) {
+            let mut j = i;
+            while j < b.len() && is_ident(b[j]) {
+                j += 1;
+            }
+            let forced = last_tok == Some(i);
+            if forced || (text[i..j].contains('_') && prev_ok && next_ok(j) && rng.chance(1, 2)) {
+                lit = Some((j, true));
+            } else {
+                out.push_str(&text[i..j]);
+                i = j;
+                continue;
+            }
         }
-        if let Some(j) = lit {
-            if rng.chance(2, 3) {
+        if let Some((j, ident)) = lit {
+            let forced = last_tok.map(|l| l == i && j == b.len()).unwrap_or(false) || (end_in_ph && j == b.len());
+            if forced || rng.chance(2, 3) {
                 n += 1;
-                let value = text[i..j].to_string();
-                let name = if positional || style.starts_with("numeric") {
+                let mut from = i;
+                // identifier: keep a prefix up to an inner '_' in front of the placeholder
+                if ident && glues_after_word(style) && rng.chance(1, 2) {
+                    if let Some(k) = text[i..j].rfind('_') {
+                        if k > 0 && i + k + 1 < j {
+                            from = i + k + 1;
+                            out.push_str(&text[i..from]);
+                        }
+                    }
+                }
+                let lit_text = &text[from..j];
+                let value = if !wide || ident {
+                    lit_text.to_string()
+                } else {
+                    match rng.below(12) {
+                        0 => format!("{}+1", lit_text),
+                        1 => format!("{} +1", lit_text),
+                        2 => format!("{} + 1", lit_text),
+                        3 => format!("({})", lit_text),
+                        4 => format!("{} ", lit_text),
+                        5 => format!(" {}", lit_text),
+                        6 => format!("{}\n", lit_text),
+                        7 => format!("{}*2", lit_text),
+                        _ => lit_text.to_string(),
+                    }
+                };
+                let name = if positional || numeric(style) {
                     format!("{}", n)
                 } else {
                     match rng.below(3) {
@@ -230,26 +397,9 @@ pub fn templatise(rng: &mut Rng, text: &str, style: &str) -> Option<(String, Tem
                         _ => format!("a_rather_long_parameter_name_{}", n),
                     }
                 };
-                let ph = match style {
-                    "colon" | "colon_nospaces" | "numeric_colon" => format!(":{}", name),
-                    "pyformat" => format!("%({})s", name),
-                    "dollar" | "numeric_dollar" => {
-                        if rng.chance(1, 2) { format!("${}", name) } else { format!("${{{}}}", name) }
-                    }
-                    "question_mark" => "?".to_string(),
-                    "percent" => "%s".to_string(),
-                    "ampersand" => {
-                        if rng.chance(1, 2) { format!("&{}", name) } else { format!("&{{{}}}", name) }
-                    }
-                    "flyway_var" => format!("${{v:{}}}", name),
-                    _ => return None,
-                };
-                let key = if style == "flyway_var" { format!("v:{}", name) } else { name };
-                if !positional {
-                    params.push((key, value));
-                } else {
-                    params.push((key, value));
-                }
+                let name = if style == "custom_named" { name.replace('_', "") } else { name };
+                let (ph, key) = mk_ph(rng, style, &name)?;
+                params.push((key, value));
                 out.push_str(&ph);
                 i = j;
                 continue;
@@ -266,12 +416,204 @@ pub fn templatise(rng: &mut Rng, text: &str, style: &str) -> Option<(String, Tem
     }
     if positional {
         // pre-existing '?' / '%s' shift the numbering: give up naming, values default to the index
-        let marker = if style == "question_mark" { "?" } else { "%s" };
+        let marker = match style {
+            "question_mark" => "?",
+            "percent" => "%s",
+            _ => "@@",
+        };
         if text.contains(marker) {
             params.clear();
         }
     }
-    Some((out, Templ { style: style.to_string(), params }))
+    Some((out, Templ { style: style.to_string(), regex: custom_regex(style), params, api: wide && rng.chance(1, 4) }))
+}
+
+// ---------------------------------------------------------------- synthetic statements around placeholders
+/// What a placeholder in a given syntactic role may stand for: single tokens, values that lex into
+/// several tokens (with and without layout/capitalisation defects inside), padded and multi-line
+/// values. Every role also draws the empty / blank values of `ODD`.
+const V_COL: &[&str] = &["a", "b+1", "b +1", "b + 1", "a,b", "a , b", "a, b", "a AS x", "a as x", "a x", "Foo", "t.a", "count(*)", "COUNT( a )  AS n", "a  ", "a,\n    b", "*", "1", "'x'", "a||b", "a\n", "sum(a)/2"];
+const V_TBL: &[&str] = &["users", "s.users", "users AS u", "users as u", "users u", "users, other", "(SELECT 1 AS a) AS q", "Users", "users\n", "t1 JOIN t2 ON t1.a=t2.a", "t1  join  t2 using (a)"];
+const V_ALIAS: &[&str] = &["u", "al", "U", "some_long_alias", "u -- c\n"];
+const V_VAL: &[&str] = &["1", "b+1", "b +1", "b + 1", "b+ 1", "'x'", "(1, 2, 3)", "(1,2,3)", "( 1 , 2 )", "1 AND c = 2", "1 and c=2", "b\n    AND c = 1", "NULL", "null", "-1", "1  ", " 1", "f(b)", "f( b )", "b::int", "CAST(b AS int)", "cast(b as INT)", "1 -- one\n", "b*(c+1)", "x.b", "a.b+c.d", "'2020-01-01'"];
+const V_NAME: &[&str] = &["a", "col", "some_long_column_name", "Col", "x1"];
+const V_NUM: &[&str] = &["10", "5+5", "1", "10 OFFSET 5", "10  offset 5"];
+const V_KW: &[&str] = &["ASC", "desc", "DESC NULLS LAST", "asc", "DESC"];
+const V_CLAUSE: &[&str] = &["WHERE a = 1", "where a=1", "ORDER BY a", "order by a  desc", "LIMIT 1", "-- c", "WHERE a = 1\n", "WHERE a=1 AND b=2", "GROUP BY a\nORDER BY a"];
+const V_STMT: &[&str] = &["SELECT 1", "select a from t", "SELECT a  FROM t", "SELECT a,b FROM t WHERE a=b", "SELECT a FROM t AS u", "SELECT a\nFROM t\n", "SELECT a FROM t;"];
+const ODD: &[&str] = &["", " ", "\n", "  \n  ", "\t"];
+
+/// Statement skeletons; `{role}` is a slot that becomes a placeholder or literal text of that role.
+const SKELETONS: &[&str] = &[
+    "SELECT {col} FROM {tbl}",
+    "SELECT {col} FROM {tbl} AS {alias}",
+    "SELECT {col} FROM {tbl} {alias}",
+    "SELECT a FROM users AS {alias}",
+    "SELECT a FROM users {alias}",
+    "SELECT a FROM s.{name}",
+    "SELECT a AS {alias}",
+    "SELECT a, b AS {alias}",
+    "SELECT {col}, {col} FROM {tbl} WHERE {name} = {val}",
+    "SELECT a FROM t WHERE a = {val}",
+    "SELECT a FROM t WHERE a={val}",
+    "SELECT a FROM t WHERE {val} = a",
+    "SELECT a FROM t WHERE a IN {val}",
+    "SELECT a FROM t WHERE a > {val} AND b < {val}",
+    "SELECT a FROM t WHERE a = {val}{val}",
+    "SELECT a, b FROM t ORDER BY {col}",
+    "SELECT a, count(*) FROM t GROUP BY {col}",
+    "SELECT a FROM t ORDER BY a {kw}",
+    "SELECT a FROM t LIMIT {num}",
+    "SELECT a FROM t1 JOIN {tbl} ON t1.a = {val}",
+    "SELECT a FROM t1 AS x JOIN t2 AS y USING ({name})",
+    "SELECT x.a FROM t1 AS x INNER JOIN t2 AS {alias}",
+    "INSERT INTO t (a, b) VALUES ({val}, {val})",
+    "UPDATE t SET a = {val} WHERE b = {val}",
+    "UPDATE t SET a = {val}",
+    "DELETE FROM {tbl} WHERE a = {val}",
+    "DELETE FROM {tbl}",
+    "SELECT CASE WHEN a = {val} THEN {val} ELSE {val} END AS c FROM t",
+    "SELECT f({val}), count({col}) FROM {tbl}",
+    "CREATE TABLE {tbl} (a int, b int)",
+    "DROP TABLE {name}",
+    "SELECT * FROM {name}.tbl",
+    "SELECT * FROM db.tbl_{name}",
+    "SELECT a FROM {name}_tbl AS {alias}",
+    "WITH c AS (SELECT {col} FROM {tbl}) SELECT * FROM c",
+    "SELECT a FROM t WHERE a = {val} UNION ALL SELECT b FROM u WHERE b = {val}",
+    "SELECT a FROM t {clause}",
+    "SELECT a FROM t WHERE b = 2 {clause}",
+    "{stmt}",
+    "{stmt};\n{stmt}",
+    "SELECT a FROM t; {stmt}",
+    "SELECT a FROM t WHERE a = {val} -- trailing {val}",
+    "SELECT a FROM t -- {name}",
+    "SELECT '{name}' FROM t",
+    "SELECT {col}\nFROM {tbl}\nWHERE a = {val}\n  AND b = {val}",
+    "select {col} from {tbl} where a={val}",
+    "SELECT\n    a,\n    {col}\nFROM {tbl}",
+    "{col}",
+    "SELECT a FROM t WHERE a BETWEEN {val} AND {val}",
+    "SELECT a FROM t WHERE a LIKE {val}",
+    "SELECT a FROM t AS {alias} WHERE {alias}.a = {val}",
+    "SELECT t.a FROM t HAVING count(*) > {val}",
+];
+fn role_values(role: &str) -> &'static [&'static str] {
+    match role {
+        "col" => V_COL,
+        "tbl" => V_TBL,
+        "alias" => V_ALIAS,
+        "val" => V_VAL,
+        "name" => V_NAME,
+        "num" => V_NUM,
+        "kw" => V_KW,
+        "clause" => V_CLAUSE,
+        "stmt" => V_STMT,
+        _ => V_VAL,
+    }
+}
+const PH_NAMES: &[&str] = &["x", "v", "al", "p1", "id", "param_2", "start_date", "a_rather_long_parameter_name", "n", "tbl"];
+
+/// A short statement with placeholders in chosen syntactic positions: as a whole token, glued to an
+/// identifier on either side, adjacent to another placeholder, at the very start / very end of the
+/// file (no trailing newline), in a comment or a quoted literal; values single-token, multi-token,
+/// multi-line, padded or empty; every style.
+pub fn gen_shape(rng: &mut Rng, matches: &dyn Fn(&str, &str) -> Option<usize>) -> Option<Item> {
+    let style = *rng.pick(STYLES_ALL);
+    let skel = *rng.pick(SKELETONS);
+    // split into literal pieces and slots
+    let mut pieces: Vec<(bool, String)> = vec![];
+    let mut rest = skel;
+    while let Some(a) = rest.find('{') {
+        let b = rest[a..].find('}')? + a;
+        pieces.push((false, rest[..a].to_string()));
+        pieces.push((true, rest[a + 1..b].to_string()));
+        rest = &rest[b + 1..];
+    }
+    pieces.push((false, rest.to_string()));
+    let n_slots = pieces.iter().filter(|p| p.0).count();
+    let ends_in_slot = rest.is_empty();
+    let forced = rng.below(n_slots.max(1));
+    let end_ph = ends_in_slot && rng.chance(2, 3);
+    let mut sql = String::new();
+    let mut params: Vec<(String, String)> = vec![];
+    let mut n_ph = 0usize;
+    let mut slot = 0usize;
+    let mut last_was_ph = false;
+    for (is_slot, p) in &pieces {
+        if !*is_slot {
+            if !p.is_empty() {
+                let lit = if rng.chance(1, 3) { perturb(rng, p) } else { p.clone() };
+                // perturb may pad the end of a piece; keep glue positions ('_', '.', quotes) intact
+                let lit = if p.ends_with(['_', '.', '\'', '(']) || p.starts_with(['_', '.', '\'', ')']) { p.clone() } else { lit };
+                sql.push_str(&lit);
+                last_was_ph = false;
+            }
+            continue;
+        }
+        let vals = role_values(p);
+        let is_last = slot + 1 == n_slots;
+        let make_ph = slot == forced || (is_last && end_ph) || rng.chance(1, 2);
+        slot += 1;
+        let value = if rng.chance(1, 12) { rng.pick(ODD).to_string() } else { rng.pick(vals).to_string() };
+        if !make_ph {
+            // literal text of the role (never empty: the statement should stay a statement)
+            let v = rng.pick(vals).to_string();
+            sql.push_str(v.trim_end_matches('\n'));
+            last_was_ph = false;
+            continue;
+        }
+        n_ph += 1;
+        let name = if positional(style) {
+            format!("{}", n_ph)
+        } else if numeric(style) {
+            format!("{}", rng.range(1, 3))
+        } else if style == "custom_named" {
+            format!("{}{}", ["x", "al", "param", "averylongparametername"][rng.below(4)], rng.below(3))
+        } else {
+            let base = *rng.pick(PH_NAMES);
+            if rng.chance(1, 2) { base.to_string() } else { format!("{}_{}", base, rng.below(3)) }
+        };
+        let (ph, key) = mk_ph(rng, style, &name)?;
+        // glue an identifier fragment in front (only for the styles whose regex still matches behind a
+        // word character: elsewhere the text would not be a placeholder at all, but literal code that
+        // a fix may turn into one by inserting a blank - outside this property's quantifier) / behind
+        let glue_front = glues_after_word(style) && !last_was_ph && rng.chance(1, 4) && sql.ends_with([' ', '\n', '(', '.', ',']);
+        if glue_front {
+            sql.push_str(["u_", "x", "tbl_", "T_"][rng.below(4)]);
+        }
+        sql.push_str(&ph);
+        if rng.chance(1, 8) && (ph.ends_with('}') || ph.ends_with(')') || ph.ends_with('?') || ph.ends_with('@')) {
+            sql.push_str(["_x", "_suffix", "1"][rng.below(3)]);
+        }
+        if !params.iter().any(|(k, _)| *k == key) && key != "param_style" && key != "param_regex" {
+            // 1 in 10: no value configured, the placeholder renders as its own name
+            if !rng.chance(1, 10) {
+                params.push((key, value));
+            }
+        }
+        last_was_ph = true;
+    }
+    if n_ph == 0 {
+        return None;
+    }
+    let end = if end_ph { "" } else { *rng.pick(&["", "", "\n", "\n", ";", ";\n", " ", "\n\n", " -- c", "\n-- c\n", "  \n"]) };
+    sql.push_str(end);
+    if rng.chance(1, 10) {
+        sql.insert_str(0, ["\n", "  ", "-- head\n"][rng.below(3)]);
+    }
+    // every generated placeholder must be one for the templater, and nothing else in the file
+    // (e.g. `tbl_?`: the built-in regexes do not match behind a word character; that text is literal
+    // code which a fix may turn into a placeholder by inserting a blank - not an input of this property)
+    if let Some(k) = matches(style, &sql) {
+        if k != n_ph {
+            return None;
+        }
+    }
+    let dialect = if rng.chance(3, 5) { "ansi" } else { *rng.pick(&DIALECTS) };
+    let rules = if rng.chance(1, 2) { "all" } else { RULESETS[rng.below(RULESETS.len())] };
+    let api = rng.chance(1, 4);
+    Some(Item { cls: "templated-shapes", dialect: dialect.into(), rules: rules.into(), sql, templ: Some(Templ { style: style.to_string(), regex: custom_regex(style), params, api }) })
 }
 
 // ---------------------------------------------------------------- recording
@@ -359,8 +701,9 @@ fn placeholders(tf: &TemplatedFile) -> Vec<String> {
     tf.verif_raw_sliced_idx().into_iter().filter(|(_, t, _)| t == "templated").map(|(i, _, l)| tf.source_str[i..i + l].to_string()).collect()
 }
 
-/// Generator restriction for templated inputs: every placeholder is its own token (separators on
-/// both sides in the source, non-empty value). Anything else is C15 territory.
+/// Is every placeholder its own token (separators on both sides in the source, non-empty value)?
+/// Used to be a generator restriction (lexer defects repaired since, see notes/C15.md); now only
+/// counted, to show how many runs have glued / empty placeholders.
 pub fn own_token(tf: &TemplatedFile) -> bool {
     let sb = tf.source_str.as_bytes();
     let sep = |b: u8| matches!(b, b' ' | b'\n' | b'\t' | b'(' | b')' | b',' | b';' | b'=' | b'<' | b'>');
@@ -370,12 +713,141 @@ pub fn own_token(tf: &TemplatedFile) -> bool {
     })
 }
 
+/// Failure classes recorded as known findings (notes/C04.md "Findings"), decided from the outcome:
+///  * fused: every placeholder of the source is still in the fixed text, in order, but the templater no
+///    longer recognises the same list - a fix removed literal white space next to a placeholder and the
+///    style's regex (look-behind on word characters / greedy name) now reads the place differently
+///    (`DROP TABLE $t` -> `DROP TABLE$t`, `:v FROM` -> `:vFROM`, `:p ::int` -> `:p::int`);
+///  * empty value: the only placeholders missing from the fixed text are ones whose sample value is
+///    empty (no token carries them; the gap patch of `iter_patches` swallows them), or nothing is
+///    missing but such a placeholder exists and the texts differ around it.
+///  * out of order: the patches of the final tree are not sorted / disjoint (a rule moved code, e.g. ST06,
+///    under an ancestor that holds a placeholder; positions run backwards and `fix_string` drops the
+///    patch that starts before the running index).
+/// Anything else (a placeholder with a value lost, changed, reordered; an edit inside a rendering) keeps
+/// its per-input key.
+pub fn known_class(tf: &TemplatedFile, tpl: &str, fixed: &str, same_list: bool, sorted_disjoint: bool) -> Option<&'static str> {
+    // greedy in-order search of the placeholders' source texts in the fixed text
+    let found_in_order = |with_empty: bool| -> bool {
+        let mut cur = 0usize;
+        for t in tf.sliced_file.iter().filter(|t| t.slice_type == "templated") {
+            if !with_empty && t.templated_slice.is_empty() {
+                continue;
+            }
+            let p = &tf.source_str[t.source_slice.clone()];
+            match fixed[cur..].find(p) {
+                Some(k) => cur += k + p.len(),
+                None => return false,
+            }
+        }
+        true
+    };
+    let _ = tpl;
+    let has_empty = tf.sliced_file.iter().any(|t| t.slice_type == "templated" && t.templated_slice.is_empty());
+    if !sorted_disjoint {
+        // the premise of C04_templated_keeps_partial fails: positions of the final tree run backwards
+        Some("c04-templated-patches-out-of-order")
+    } else if !found_in_order(false) {
+        None
+    } else if !found_in_order(true) || (same_list && has_empty) {
+        Some("c04-placeholder-with-empty-value")
+    } else if !same_list {
+        Some("c04-placeholder-fused-with-neighbour")
+    } else {
+        None
+    }
+}
+
+/// The conflict filter itself, independent of which fixes the rules happen to propose: for every
+/// segment of the parsed tree (tokens and nodes) and every edit type a fix anchored there is built
+/// through the public constructors and `LintFix::has_template_conflicts` is asked. Soundness only:
+/// whenever `touches_templated` says the fix would edit templated code the filter must say "conflict".
+/// Returns (fixes asked, fixes that touch templated code, descriptions of the unsound answers).
+pub fn synth_conflicts(tf: &TemplatedFile, root: &ErasedSegment) -> (usize, usize, Vec<String>) {
+    fn walk(seg: &ErasedSegment, out: &mut Vec<ErasedSegment>) {
+        out.push(seg.clone());
+        for c in seg.segments() {
+            walk(c, out);
+        }
+    }
+    let mut segs = vec![];
+    walk(root, &mut segs);
+    let (mut asked, mut touching) = (0usize, 0usize);
+    let mut bad = vec![];
+    for seg in &segs {
+        let Some(pm) = seg.get_position_marker() else { continue };
+        let (src, tpl) = ((pm.source_slice.start, pm.source_slice.end), (pm.templated_slice.start, pm.templated_slice.end));
+        for edit in ["Delete", "Replace", "CreateBefore", "CreateAfter"] {
+            let a = Applied { rule: "synthetic", pass: 0, edit: edit.to_string(), anchor_raw: seg.raw().to_string(), src: Some(src), tpl: Some(tpl), n_edit: 1, source_edit: false };
+            let Some(why) = touches_templated(tf, &a) else { continue };
+            touching += 1;
+            let fix = match edit {
+                "Delete" => LintFix::delete(seg.clone()),
+                "Replace" => LintFix::replace(seg.clone(), vec![seg.clone()], None),
+                "CreateBefore" => LintFix::create_before(seg.clone(), vec![seg.clone()]),
+                _ => LintFix::create_after(seg.clone(), vec![seg.clone()], None),
+            };
+            asked += 1;
+            match catch(|| fix.has_template_conflicts(tf)) {
+                Ok(true) => {}
+                Ok(false) => bad.push(format!("{} [{:?}]: has_template_conflicts = false", why, seg.get_type())),
+                Err(m) => bad.push(format!("{} [{:?}]: has_template_conflicts panicked: {}", why, seg.get_type(), trunc(&m, 80))),
+            }
+        }
+    }
+    (asked, touching, bad)
+}
+
 pub struct FixRun {
     pub tf: TemplatedFile,
     pub start: Option<ErasedSegment>,
     pub end: Option<ErasedSegment>,
     pub patches: Vec<(usize, usize, String)>,
     pub fixed: String,
+    /// every fix of an accepted batch of the fix loop
+    pub applied: Vec<Applied>,
+}
+
+/// One fix the loop applied to the tree (it passed `has_template_conflicts`).
+#[derive(Clone)]
+pub struct Applied {
+    pub rule: &'static str,
+    pub pass: usize,
+    pub edit: String,
+    pub anchor_raw: String,
+    pub src: Option<(usize, usize)>,
+    pub tpl: Option<(usize, usize)>,
+    pub n_edit: usize,
+    pub source_edit: bool,
+}
+
+/// The property's "templated code is untouched", stated on one applied fix from the slice list alone
+/// (independent of `fix_slices` / `raw_slices_spanning_source_slice`): a deletion / replacement whose
+/// anchor covers source text of a placeholder, or a creation whose insertion point lies strictly
+/// inside the rendering of a placeholder, edits templated code.
+pub fn touches_templated(tf: &TemplatedFile, a: &Applied) -> Option<String> {
+    let (Some((s0, s1)), Some((t0, t1))) = (a.src, a.tpl) else { return None };
+    for sl in tf.sliced_file.iter().filter(|t| t.slice_type == "templated") {
+        let (ps, pe) = (sl.source_slice.start, sl.source_slice.end);
+        let (qs, qe) = (sl.templated_slice.start, sl.templated_slice.end);
+        match a.edit.as_str() {
+            "Delete" | "Replace" => {
+                if a.source_edit {
+                    continue;
+                }
+                if s0 < s1 && s0 < pe && ps < s1 && ps < pe {
+                    return Some(format!("{} of {:?} (source {}..{}) covers placeholder {:?} at source {}..{}", a.edit, trunc(&a.anchor_raw, 40), s0, s1, &tf.source_str[ps..pe], ps, pe));
+                }
+            }
+            _ => {
+                let p = if a.edit == "CreateBefore" { t0 } else { t1 };
+                if qs < p && p < qe {
+                    return Some(format!("{} at templated offset {} (anchor {:?}) lies inside the rendering {}..{} of placeholder {:?}", a.edit, p, trunc(&a.anchor_raw, 40), qs, qe, &tf.source_str[ps..pe]));
+                }
+            }
+        }
+    }
+    None
 }
 
 pub enum RunErr {
@@ -383,7 +855,6 @@ pub enum RunErr {
     Loop(String),
     Patches(String),
     NoTree,
-    NotOwnToken,
 }
 
 /// Run the real pipeline once: parse, lint_parsed(fix = true) with the hook, fix_string.
@@ -398,15 +869,29 @@ pub fn fix_run(linter: &Linter, sql: &str) -> Result<FixRun, RunErr> {
         return Err(RunErr::NoTree);
     }
     let tf = parsed.templated_file.clone();
-    if !own_token(&tf) {
-        return Err(RunErr::NotOwnToken);
-    }
     let trees: Rc<RefCell<(Option<ErasedSegment>, Option<ErasedSegment>)>> = Rc::new(RefCell::new((None, None)));
     let t2 = trees.clone();
+    let applied: Rc<RefCell<Vec<Applied>>> = Rc::new(RefCell::new(vec![]));
+    let a2 = applied.clone();
     verif_hook::FIX_HOOK.with(|h| {
         *h.borrow_mut() = Some(Box::new(move |ev| match ev {
             verif_hook::FixEvent::Start { tree, .. } => t2.borrow_mut().0 = Some(tree.clone()),
             verif_hook::FixEvent::End { tree } => t2.borrow_mut().1 = Some(tree.clone()),
+            verif_hook::FixEvent::Batch { pass, rule, fixes, accepted: true, .. } => {
+                for f in fixes {
+                    let pm = f.anchor.get_position_marker();
+                    a2.borrow_mut().push(Applied {
+                        rule,
+                        pass,
+                        edit: format!("{:?}", f.edit_type),
+                        anchor_raw: f.anchor.raw().to_string(),
+                        src: pm.map(|p| (p.source_slice.start, p.source_slice.end)),
+                        tpl: pm.map(|p| (p.templated_slice.start, p.templated_slice.end)),
+                        n_edit: f.edit.len(),
+                        source_edit: f.is_just_source_edit() && f.edit.iter().all(|e| !e.get_source_fixes().is_empty()),
+                    });
+                }
+            }
             _ => {}
         }))
     });
@@ -427,7 +912,8 @@ pub fn fix_run(linter: &Linter, sql: &str) -> Result<FixRun, RunErr> {
         Ok(s) => s,
         Err(m) => return Err(RunErr::Patches(format!("fix_string: {}", m))),
     };
-    Ok(FixRun { tf, start, end, patches, fixed })
+    let applied = applied.borrow().clone();
+    Ok(FixRun { tf, start, end, patches, fixed, applied })
 }
 
 const TREE_CASE_MAX: usize = 2500;
@@ -459,10 +945,6 @@ fn run_file(ls: &mut Linters, it: &Item, out: &mut Buf) {
         }
         Err(RunErr::NoTree) => {
             out.count("skipped_no_tree", 1);
-            return;
-        }
-        Err(RunErr::NotOwnToken) => {
-            out.count("skipped_placeholder_not_own_token (C15 territory)", 1);
             return;
         }
         Err(RunErr::Loop(m)) => {
@@ -518,6 +1000,59 @@ fn run_file(ls: &mut Linters, it: &Item, out: &mut Buf) {
         out.hyp("templated: patches of the final tree are sorted and disjoint (premise of C04_templated_keeps_partial)", "diagnostic", sd, json!({"input":input,"patches":run.patches}));
     }
 
+    // ---- templated code untouched, fix by fix (mechanism: has_template_conflicts must have dropped these)
+    let touching: Vec<String> = if templated {
+        run.applied.iter().filter_map(|a| touches_templated(tf, a).map(|m| format!("{} (pass {}): {}", a.rule, a.pass, m))).collect()
+    } else {
+        vec![]
+    };
+    if templated {
+        out.count("templated_applied_fixes", run.applied.len());
+        out.hyp(
+            "templated: no fix applied by the loop deletes/replaces source text of a placeholder or inserts inside a placeholder's rendering (what has_template_conflicts is for)",
+            "diagnostic",
+            touching.is_empty(),
+            json!({"input":input,"fixes":touching}),
+        );
+        if !own_token(tf) {
+            out.count("templated_runs_with_glued_or_empty_placeholder", 1);
+        }
+        if tf.sliced_file.last().map(|t| t.slice_type == "templated").unwrap_or(false) {
+            out.count("templated_runs_file_ends_in_placeholder", 1);
+        }
+        if tf.sliced_file.first().map(|t| t.slice_type == "templated" || t.source_slice.is_empty()).unwrap_or(false) {
+            out.count("templated_runs_file_starts_with_placeholder", 1);
+        }
+        if let Some(st) = run.start.as_ref() {
+            let multi = tf.sliced_file.iter().filter(|t| t.slice_type == "templated").any(|t| {
+                st.get_raw_segments().iter().filter(|r| !r.raw().is_empty() && r.get_position_marker().map(|p| p.source_slice == t.source_slice).unwrap_or(false)).count() > 1
+            });
+            if multi {
+                out.count("templated_runs_with_multi_token_placeholder", 1);
+            }
+        }
+    }
+    if templated && src.len() <= 4000 {
+        if let Some(st) = run.start.as_ref() {
+            let (asked, _, bad) = synth_conflicts(tf, st);
+            out.count("synthetic_fixes_touching_templated_code_asked", asked);
+            // next to a placeholder with an empty value the filter's window arithmetic is known to be off
+            // (known finding c04-placeholder-with-empty-value): those files are monitored separately
+            let has_empty = tf.sliced_file.iter().any(|t| t.slice_type == "templated" && t.templated_slice.is_empty());
+            out.hyp(
+                if has_empty {
+                    "templated, files with an empty-valued placeholder (known finding): has_template_conflicts reports a conflict for every synthetic fix that would edit templated code"
+                } else {
+                    "templated: has_template_conflicts reports a conflict for every fix (any segment of the parsed tree x delete/replace/create_before/create_after) that would delete or replace source text of a placeholder or insert inside its rendering"
+                },
+                if has_empty { "diagnostic" } else { "blocking" },
+                bad.is_empty(),
+                json!({"input":input,"n_unsound":bad.len(),"unsound":bad.iter().take(5).collect::<Vec<_>>()}),
+            );
+        }
+    }
+    let why = if touching.is_empty() { String::new() } else { format!("; applied fixes editing templated code: {:?}", touching) };
+
     // ---- direct observation of the property
     if !templated {
         let ok = run.fixed == tree_raw;
@@ -537,17 +1072,78 @@ fn run_file(ls: &mut Linters, it: &Item, out: &mut Buf) {
         match rendered {
             Ok(Ok(r)) => {
                 let ph_fixed = placeholders(&r.templated_file);
-                let key = format!("c04-templated-{:016x}", fnv(&format!("{}|{}|{}|{}", it.dialect, it.rules, it.sql, cfg_text("", "", it.templ.as_ref()))));
+                let key = match known_class(tf, &tpl, &run.fixed, ph_fixed == ph_src, sd) {
+                    Some(k) => k.to_string(),
+                    None => format!("c04-templated-{:016x}", fnv(&format!("{}|{}|{}|{}", it.dialect, it.rules, it.sql, cfg_text("", "", it.templ.as_ref())))),
+                };
                 let ok1 = ph_fixed == ph_src;
-                out.direct("templated-placeholders", ok1, &key, &format!("placeholders changed: source {:?} fixed {:?}; fixed text {:?}", ph_src, ph_fixed, trunc(&run.fixed, 300)), input.clone());
+                out.direct("templated-placeholders", ok1, &key, &format!("placeholders changed: source {:?} fixed {:?}; fixed text {:?}{}", ph_src, ph_fixed, trunc(&run.fixed, 300), why), input.clone());
                 let re = r.templated_file.templated_str.clone().unwrap_or_default();
                 let ok2 = re == tree_raw;
-                out.direct("templated-rerender", ok2, &key, &format!("re-rendered fixed source differs from the final tree's raw: rerender={:?} tree={:?} fixed={:?}", trunc(&re, 300), trunc(&tree_raw, 300), trunc(&run.fixed, 300)), input.clone());
+                out.direct("templated-rerender", ok2, &key, &format!("re-rendered fixed source differs from the final tree's raw: rerender={:?} tree={:?} fixed={:?}{}", trunc(&re, 3000), trunc(&tree_raw, 3000), trunc(&run.fixed, 3000), why), input.clone());
             }
             _ => {
                 out.count("rerender_failed", 1);
             }
         }
+    }
+
+    // ---- correspondence case, conflict side: raw_slices_spanning_source_slice vs the Gallina `spanning`
+    if templated && src.len() <= TREE_CASE_MAX {
+        let raws = tf.verif_raw_sliced_idx();
+        let mut qs: Vec<(usize, usize)> = vec![];
+        if let Some(st) = run.start.as_ref() {
+            fn walk(seg: &ErasedSegment, qs: &mut Vec<(usize, usize)>) {
+                if let Some(pm) = seg.get_position_marker() {
+                    qs.push((pm.source_slice.start, pm.source_slice.end));
+                }
+                for c in seg.segments() {
+                    walk(c, qs);
+                }
+            }
+            walk(st, &mut qs);
+        }
+        qs.sort();
+        qs.dedup();
+        let mut r2 = Rng::new(fnv(&it.sql) ^ 0x5a5a);
+        while qs.len() > 60 {
+            let k = r2.below(qs.len());
+            qs.swap_remove(k);
+        }
+        for _ in 0..20 {
+            let a = r2.below(src.len() + 3);
+            let b = if r2.chance(1, 5) { r2.below(src.len() + 3) } else { a + r2.below(12) };
+            qs.push((a, b));
+        }
+        // around every slice border
+        for (i, _, l) in &raws {
+            qs.push((i.saturating_sub(1), *i));
+            qs.push((*i, *i));
+            qs.push((*i, i + 1));
+            qs.push((i.saturating_sub(1), i + l + 1));
+        }
+        let real: Vec<Option<Vec<(usize, usize)>>> = qs.iter().map(|(a, b)| catch(|| tf.verif_raw_slices_spanning(&(*a..*b))).ok().map(|v| v.into_iter().map(|(i, l, _)| (i, l)).collect())).collect();
+        let args = g_tuple(&[
+            g_list(raws.iter().map(|(i, t, l)| g_tuple(&[g_n(*i), g_n(*l), g_bool(t == "templated")]))),
+            g_list(qs.iter().map(|(a, b)| g_tuple(&[g_n(*a), g_n(*b)]))),
+        ]);
+        let exp = g_list(real.iter().map(|o| g_opt(o.as_ref().map(|v| g_list(v.iter().map(|(i, l)| g_tuple(&[g_n(*i), g_n(*l)])))))));
+        let multi = real.iter().any(|o| o.as_ref().map(|v| v.len() > 1).unwrap_or(false));
+        out.case("span", it.cls, multi, args, exp, json!({"input":input,"n_queries":qs.len()}));
+        out.hyp(
+            "raw slices of the TemplatedFile tile the source from 0 (premise of C04_conflict_slices_complete)",
+            "blocking",
+            {
+                let mut pos = 0usize;
+                let mut ok = true;
+                for (i, _, l) in &raws {
+                    ok &= *i == pos;
+                    pos += l;
+                }
+                ok && pos == src.len()
+            },
+            json!({"input":input}),
+        );
     }
 
     // ---- correspondence case
@@ -725,7 +1321,7 @@ pub fn main(args: &Args) {
                 dialect: d.into(),
                 rules: r.into(),
                 sql: s.into(),
-                templ: t.map(|(st, ps): (&str, Vec<(&str, &str)>)| Templ { style: st.into(), params: ps.into_iter().map(|(k, v)| (k.to_string(), v.to_string())).collect() }),
+                templ: t.map(|(st, ps): (&str, Vec<(&str, &str)>)| Templ { style: st.into(), regex: None, params: ps.into_iter().map(|(k, v)| (k.to_string(), v.to_string())).collect(), api: false }),
             });
         }
         let corpus = corpus();
@@ -775,9 +1371,39 @@ pub fn main(args: &Args) {
             }
             let style = STYLES[rng.below(STYLES.len())];
             let base = if rng.chance(1, 2) { perturb(&mut rng, &f.text) } else { f.text.clone() };
-            if let Some((sql, templ)) = templatise(&mut rng, &base, style) {
+            if let Some((sql, templ)) = templatise(&mut rng, &base, style, false) {
                 let rules = RULESETS[rng.below(RULESETS.len())];
                 items.push(Item { cls: "templated-corpus", dialect: f.dialect.clone(), rules: rules.into(), sql, templ: Some(templ) });
+                made += 1;
+            }
+        }
+        // the same with the wide generator: glued / partial identifiers, multi-token and padded values,
+        // file ending in a placeholder, every style incl. apache_camel and custom regexes
+        let n_wide = if thorough { 6000 } else { 500 };
+        let (mut made, mut tries) = (0, 0);
+        while made < n_wide && tries < n_wide * 20 {
+            tries += 1;
+            let f = &corpus[rng.below(corpus.len())];
+            if f.text.len() > 3000 {
+                continue;
+            }
+            let style = STYLES_ALL[rng.below(STYLES_ALL.len())];
+            let base = if rng.chance(1, 2) { perturb(&mut rng, &f.text) } else { f.text.clone() };
+            if let Some((sql, templ)) = templatise(&mut rng, &base, style, true) {
+                let rules = if rng.chance(1, 3) { "all" } else { RULESETS[rng.below(RULESETS.len())] };
+                items.push(Item { cls: "templated-corpus-wide", dialect: f.dialect.clone(), rules: rules.into(), sql, templ: Some(templ) });
+                made += 1;
+            }
+        }
+        // synthetic statements around placeholders
+        let known = sqruff_lib::templaters::placeholder::get_known_styles();
+        let matches = |style: &str, sql: &str| known.get(style).map(|re| re.find_iter(sql).filter(|m| m.is_ok()).count());
+        let n_shapes = if thorough { 20000 } else { 1500 };
+        let (mut made, mut tries) = (0, 0);
+        while made < n_shapes && tries < n_shapes * 5 {
+            tries += 1;
+            if let Some(it) = gen_shape(&mut rng, &matches) {
+                items.push(it);
                 made += 1;
             }
         }
